@@ -8,10 +8,13 @@ import (
 var initonce sync.Once
 
 func initAll() {
+	verifGate("init:sm2ec.curve")
+	defer verifGate("inited:sm2ec.curve")
 	initSM2P256()
 }
 
 func P256() elliptic.Curve {
 	initonce.Do(initAll)
+	verifGate("done:sm2ec.curve")
 	return sm2p256
 }
